@@ -22,6 +22,7 @@ class FnSpec:
         self.property = None
         self.requires = []
         self.ghost_requires = []
+        self.enforce_requires = []
         self.ghost_ensures = []
         self.ghost_assigns = []
         self.ensures = []      # (label, expr)
@@ -37,10 +38,12 @@ class FnSpec:
         self.harness_decls = None
         self.reachable = []
         self.flags = []
+        self.defines = []
         self.min_obligations = 0
         self.bounded = None    # text describing the bound if this is a bounded stand-in
         self.assume_only = False   # contract of an opaque stub / model (never enforced)
         self.note = None
+        self.signature = None
         self.inputs = []       # harness inputs to extract from traces (names)
         self.check = True      # enforce the contract (False: contract used only for replacement)
         self.body = None       # C body for assume-contract stubs (ghost event logging)
@@ -63,6 +66,8 @@ class UnitSpec:
         self.includes = []
         self.emit = []         # (qname, regex on cname or None)
         self.aliases = []
+        self.stub_aliases = []
+        self.callable_policy = []
         self.functions = {}    # cname -> FnSpec
         self.order = []
         self.lemmas = {}
@@ -132,8 +137,20 @@ def parse(u, path):
                 t, i = read_block(lines, i, rest)
                 u.postlude.append(t)
             elif kw == 'emit':
+                # emit <qualified name> [<regex on emitted name>] [as <short name>]
+                asn = None
+                if ' as ' in rest:
+                    rest, _, asn = rest.rpartition(' as ')
+                    asn = asn.strip()
                 parts = rest.split()
-                u.emit.append((parts[0], parts[1] if len(parts) > 1 else None))
+                u.emit.append((parts[0], parts[1] if len(parts) > 1 else None, asn))
+            elif kw == 'callable':
+                # callable <policy> <regex on stub name>
+                pol, _, rx = rest.partition(' ')
+                u.callable_policy.append((rx.strip(), pol.strip()))
+            elif kw == 'stub-alias':
+                a, _, b = rest.partition('=>')
+                u.stub_aliases.append((a.strip(), b.strip()))
             elif kw == 'alias':
                 a, _, b = rest.partition('=>')
                 u.aliases.append((a.strip(), b.strip()))
@@ -143,6 +160,8 @@ def parse(u, path):
                 u.native_differential = rest in ('yes', 'true', 'on')
             elif kw in ('function', 'assume-contract', 'lemma'):
                 m = re.match(r'^(\S+)(?:\s+foreach\s+(\w+)=(.*))?$', rest)
+                if not m and kw == 'assume-contract':
+                    m = re.match(r'^(~.*?)()()$', rest)
                 if not m:
                     raise SpecError('%s:%d bad function header' % (path, i + 1))
                 name = m.group(1)
@@ -195,6 +214,8 @@ def parse(u, path):
             cur.assigns.append(rest)
         elif kw == 'ghost-requires':
             cur.ghost_requires.append(rest)
+        elif kw == 'enforce-requires':
+            cur.enforce_requires.append(rest)
         elif kw == 'ghost-assigns':
             cur.ghost_assigns.append(rest)
         elif kw == 'ghost-ensures':
@@ -225,10 +246,14 @@ def parse(u, path):
             cur.reachable += [int(x) for x in rest.replace(',', ' ').split()]
         elif kw == 'flags':
             cur.flags += rest.split()
+        elif kw == 'defines':
+            cur.defines += rest.split()
         elif kw == 'min-obligations':
             cur.min_obligations = int(rest)
         elif kw == 'note':
             cur.note = rest
+        elif kw == 'signature':
+            cur.signature = rest
         elif kw == 'inputs':
             cur.inputs += rest.replace(',', ' ').split()
         elif kw == 'nocheck':
@@ -275,6 +300,7 @@ def subst_fn(f, var, val):
     g.ensures = [(sub(a), sub(b)) for a, b in g.ensures]
     g.assigns = [sub(x) for x in g.assigns]
     g.ghost_requires = [sub(x) for x in g.ghost_requires]
+    g.enforce_requires = [sub(x) for x in g.enforce_requires]
     g.ghost_assigns = [sub(x) for x in g.ghost_assigns]
     g.ghost_ensures = [(sub(a), sub(b)) for a, b in g.ghost_ensures]
     g.entry = [sub(x) for x in g.entry]
